@@ -210,9 +210,18 @@ def run_sub(ctx, sub, regress_cases=()):
                     seen.add(sig)
                     ctx.violations.append({"sub": sub.name, "sig": sig, "msg": msg, "case": canon(case), "build": ctx.build, "from": "hypothesis"})
             continue
-        except hypothesis.errors.Flaky as e:  # pragma: no cover - would be a harness defect
-            ctx.notes.append("flaky: %s" % e)
-            raise
+        except (hypothesis.errors.Flaky, hypothesis.errors.FlakyFailure) as e:
+            # the failure did not reproduce on re-execution: it depends on something outside the
+            # generated case (in asynq: the set-iteration tie-break between equal-priority batches).
+            # The recorded failing execution is still a real one: report it unshrunk.
+            if "case" not in box:
+                raise
+            for sig, msg in box["viol"]:
+                if sig not in seen:
+                    seen.add(sig)
+                    ctx.violations.append({"sub": sub.name, "sig": sig, "msg": msg + "   [did not reproduce on immediate re-execution: schedule-dependent]", "case": canon(box["case"]), "build": ctx.build, "from": "hypothesis-flaky"})
+            ctx.notes.append("a failing execution of %s did not reproduce (tie-break dependent)" % sub.name)
+            continue
         break
 
 
